@@ -1079,6 +1079,25 @@ class CompilerPassGenerateCode(CompilerPass):
 
         for_label, cont_label, end_label = self.get_label("for", "for.cont", "for.end")
         data = node._ndata
+
+        def evaluated_once(operand):
+            # range() evaluates its arguments once: a bound or step kept in the register of a
+            # variable that the loop body (or, for a global, a function) assigns again is copied
+            if (
+                isinstance(operand, IC10Register)
+                and not operand._is_intermediate
+                and any(
+                    node.parent_of(w) or w.scope() is not node.scope()
+                    for w in operand.nodes_writing
+                )
+            ):
+                copy = self.get_intermediate_symbol(node, True)
+                data.add(IC10("move", [operand], copy))
+                return copy
+            return operand
+
+        end = evaluated_once(end)
+        step = evaluated_once(step)
         # 'continue' must go to the increment, not to the loop test
         data.start_label = cont_label
         data.end_label = end_label
